@@ -1,7 +1,7 @@
 """C13 — Pareto-set extraction: implementation vs extracted model and verified oracles."""
 import itertools, numpy as np
 from fractions import Fraction
-import common, gen
+import common, gen, impl
 
 ALLOWED_AXIOMS = set()
 TRUSTED_BASE = [
@@ -12,6 +12,9 @@ TRUSTED_BASE = [
     "numpy array handling in the implementation (modelled, not verified); float arithmetic is exact on the small dyadic inputs used",
 ]
 ASSUMPTIONS = ["inputs are exactly representable (small dyadic coordinates, integer cone matrices) so implementation decisions are exact"]
+
+
+EXTRA_CONES = {"tilted2": ([[1, 0], [3, 1]], True), "tilted3": ([[1, 0, 0], [2, 1, 0], [0, 3, 1]], True)}      # contain directions of negative coordinate sum
 
 
 def classify(cone_pointed, pts, routine):
@@ -25,10 +28,9 @@ def order_for(name, W):
     from vopy.order import PolyhedralConeOrder
     from vopy.ordering_cone import OrderingCone
     if name not in _orders:
-        oc = OrderingCone.__new__(OrderingCone)      # skip the alpha SOCPs: not used by get_pareto_set
-        # every second cone keeps the integer dtype the user typed (legal: OrderingCone([[1, 0], [0, 1]]))
-        oc.W = np.array(W) if len(_orders) % 2 == 1 else np.array(W, dtype=float)
-        oc.dim = oc.W.shape[1]; oc.alpha = None
+        # the real constructor, without the alpha SOCPs (not used by get_pareto_set); every second cone keeps the integer dtype
+        # the user typed (legal: OrderingCone([[1, 0], [0, 1]]))
+        oc = impl.make_cone(np.array(W) if len(_orders) % 2 == 1 else np.array(W, dtype=float))
         _orders[name] = PolyhedralConeOrder(oc)
     return _orders[name]
 
@@ -90,6 +92,14 @@ def gen_cases(ctx):
         if k % 3 == 0:
             pts = [pts[-1]] + pts[:-1]
         cases.append(("dynrange", cn, pts))
+    # more than 64 points (deterministic) under cones that contain directions with a negative coordinate sum — tilted pointed cones,
+    # half-planes, an ignored objective: no visiting order by a linear score is valid for all of them
+    for k in range(8 if ctx.quick else 40):
+        cn = ["tilted2", "halfplane2", "slab3", "tilted3", "line2", "diag_half2", "wide2", "six3"][k % 8]
+        dim = 2 if cn.endswith("2") else 3
+        n = [65, 80, 130, 97][k % 4]
+        pts = [[Fraction(drng.randint(0, 24), 2) for _ in range(dim)] for _ in range(n)]
+        cases.append(("large", cn, pts))
     return cases
 
 
@@ -107,7 +117,7 @@ def run_case(order, pts):
 
 
 def evaluate(ctx, cases):
-    allc = {**gen.CONES_2D, **gen.CONES_3D}
+    allc = {**gen.CONES_2D, **gen.CONES_3D, **EXTRA_CONES}
     lines, impl = [], []
     for kind, cn, pts in cases:
         W, pointed = allc[cn]
@@ -180,7 +190,7 @@ def replay(ctx, data):
     r = data["replay"]
     pts = [[Fraction(x) for x in p] for p in r["points"]]
     ctx.quick = True
-    allc = {**gen.CONES_2D, **gen.CONES_3D}
+    allc = {**gen.CONES_2D, **gen.CONES_3D, **EXTRA_CONES}
     viol, mism, _ = evaluate(ctx, [("replay", r["cone"], pts)])
     viol = [v for v in viol if v["replay"]["routine"] == r.get("routine", v["replay"]["routine"])]
     return (bool(viol), viol[0]["message"] if viol else "implementation output satisfies the oracles")
